@@ -29,15 +29,18 @@ def run_demo(wt, d):
 
 def main():
     wt, prop = sys.argv[1], sys.argv[2]
+    # A B (letters in seed_out), optionally renamed on filing: A=C B=D
     letters = sys.argv[3:] or ["A", "B"]
-    for L in letters:
+    for spec in letters:
+        L, _, name = spec.partition("=")
+        name = name or L
         d = f"{wt}/seed_out/{L}"
         if not os.path.exists(d + "/patch.diff"):
-            print(f"{prop}{L}: no patch"); continue
+            print(f"{prop}{name}: no patch"); continue
         sh(["git", "checkout", "--", "src"], cwd=wt)
         rc, out = sh(["git", "apply", "--whitespace=nowarn", d + "/patch.diff"], cwd=wt)
         if rc != 0:
-            print(f"{prop}{L}: patch does not apply: {out[:300]}"); continue
+            print(f"{prop}{name}: patch does not apply: {out[:300]}"); continue
         _, files = sh(["git", "diff", "--stat"], cwd=wt)
         rcb, outb = sh(["python3", "/tmp/seed/tools/baseline.py", wt])
         base_line = outb.strip().splitlines()[-1] if outb.strip() else ""
@@ -45,10 +48,10 @@ def main():
         sh(["git", "checkout", "--", "src"], cwd=wt)
         rc0, _, res0 = run_demo(wt, d)
         ok = rcb == 0 and rc1 not in (0, None) and rc0 == 0
-        print(f"{prop}{L}: baseline rc={rcb} ({base_line}); demo with change rc={rc1} ({res1}); demo without rc={rc0} ({res0}) => {'CONFIRMED' if ok else 'REJECTED'}")
+        print(f"{prop}{name}: baseline rc={rcb} ({base_line}); demo with change rc={rc1} ({res1}); demo without rc={rc0} ({res0}) => {'CONFIRMED' if ok else 'REJECTED'}")
         if not ok:
             continue
-        dst = f"/verif/seeded/{prop}{L}"
+        dst = f"/verif/seeded/{prop}{name}"
         shutil.rmtree(dst, ignore_errors=True)
         os.makedirs(dst)
         for f in ("patch.diff", "demo.rs", "demo.sh", "README.md"):
